@@ -150,6 +150,45 @@ class Source:
         self.funcs[qualname] = fr
         return fr
 
+    def fragment_range(self, qualname, params, spec):
+        """a run of consecutive statements of a function as a pseudo-function: '<function qualname>::part[<name>]'.
+        spec = {first: text, last: text}: the run starts at the first statement (in any statement list of the function,
+        source order) whose source contains `first` and ends at the last statement of the same list, at or after it,
+        whose source contains `last`.  Mechanical: the statements are the real AST nodes; free variables are parameters."""
+        import copy
+        fq = qualname.split("::", 1)[0]
+        fi = self.funcs[fq]
+        lists = []
+        for n in ast.walk(fi.node):
+            for fld in ("body", "orelse", "finalbody"):
+                b = getattr(n, fld, None)
+                if isinstance(b, list) and b and isinstance(b[0], ast.stmt):
+                    lists.append(b)
+        lists.sort(key=lambda b: b[0].lineno)
+        src = self.module_src[fi.module]
+        for b in lists:
+            texts = [_segment(src, st) for st in b]
+            i = next((k for k, t in enumerate(texts) if spec["first"] in t), None)
+            if i is None:
+                continue
+            js = [k for k, t in enumerate(texts) if k >= i and spec["last"] in t]
+            if not js:
+                continue
+            stmts = b[i:js[-1] + 1]
+            fn = ast.FunctionDef(name=fi.node.name, args=ast.arguments(
+                posonlyargs=[], args=[ast.arg(arg=p) for p in params], vararg=None, kwonlyargs=[], kw_defaults=[],
+                kwarg=None, defaults=[]), body=stmts, decorator_list=[], lineno=stmts[0].lineno, col_offset=0)
+            fr = copy.copy(fi)
+            fr.qualname = qualname
+            fr.node = fn
+            fr.decorators = []
+            seg = "\n".join(texts[i:js[-1] + 1])
+            fr.sha = hashlib.sha256(seg.encode()).hexdigest()
+            fr.nlines = (stmts[-1].end_lineno or stmts[-1].lineno) - stmts[0].lineno + 1
+            self.funcs[qualname] = fr
+            return fr
+        raise KeyError("statements %r .. %r not found in %s" % (spec["first"], spec["last"], fq))
+
     def add_file(self, path, mod):
         """index an extra file (lemma programs: clients of the contracts, not repository code)"""
         with open(path, encoding="utf-8") as f:
